@@ -15,7 +15,7 @@ type Common struct{ Prop string }
 func (c Common) AfterStep(m *VM, rec *Rec) {
 	if rec.Panic != "" {
 		prop := c.Prop
-		if rec.Ints["entropy_failed"] == 1 {
+		if rec.Ints["entropy_failed"] == 1 || (m.CurRand != nil && m.CurRand.Failed) {
 			prop = "C20"
 		} else if t := m.Tok(m.Plan.Ops[rec.I].A); t != nil && t.Hostile {
 			prop = "C10"
